@@ -14,10 +14,14 @@ FB_T = "core::option::Option<signal_hook_registry::Prev>"
 def keep(c):
     """stay visible as calls: the half lock's entry points, and impls of foreign traits (Clone, Drop, From, ..) — rules name those by
     their trait method"""
-    return hl.in_module(c) or (c.local and c.kind == "item" and re.match(r"^<.* as (core|alloc|std)::", c.name) is not None)
+    return (hl.in_module(c) and c.id not in hl.composite_ids(_F[0])) or (c.local and c.kind == "item" and re.match(r"^<.* as (core|alloc|std)::", c.name) is not None)
+
+
+_F = [None]
 
 
 def RN(F, m, hof=True):
+    _F[0] = F
     return inline.cached(F, m, keep=keep, tag="reg" if hof else "reg-nohof", hof=hof, thread=True)
 
 
